@@ -255,9 +255,7 @@ inline void checkCapacities(Ctx& C, const std::string& key, Op op, JsonVariantCo
       if (want && memcmp(S.data() + LEAD, ref.data(), want) != 0)
         C.failKey(k, "cap-prefix", firstDiff(std::string(reinterpret_cast<char*>(S.data() + LEAD), want), ref.substr(0, want)));
       if (isText(op) && len < n && S[LEAD + len] != 0) C.failKey(k, "cap-nul", "no terminating NUL although length < capacity");
-      if (isText(op) && len >= n) {
-        // "iff": nothing may be stored at or beyond buffer[n] (covered below) -- and no NUL replaces text inside
-      }
+      // "iff": with length >= n no NUL may be stored; inside [0,n) that is the prefix comparison, beyond it the sentinel check
       if (!isText(op))
         for (size_t i = len; i < n; i++)
           if (S[LEAD + i] != 0xA5) {
@@ -339,7 +337,8 @@ inline std::vector<double> floats64() {
           double(FLT_MIN), 1e-40, 1e300, -1e300, 1e-300, 1.5e300, 1e-310, 4.9e-324, DBL_MAX, DBL_MIN, 16777218.0,
           123456792.0, 16777217.0, 3.141592653589793, 123456789.12345679, 9007199254740992.0, 4294967296.5, 1e21,
           9223372036854775808.0, 18446744073709551616.0, -9223372036854775808.0, 9.9999999995e10, 0.9999999995,
-          99999.9999999, 2.5e-5, 1e15, 1.0000000000000002, 4294967295.0, -129.0, 65536.0,
+          99999.9999999, 2.5e-5, 1e15, 1.0000000000000002, 4294967295.0, -129.0, 65536.0, 0.0078125, 1.00000011920928955078125,
+          -0.333251953125, 33554436.0,
           std::numeric_limits<double>::quiet_NaN(), inf, -inf};
 }
 
@@ -432,6 +431,7 @@ struct DocOptions {
   int nodes = 3;          // tree generator bound
   int deepFrom = 64;      // depth from which the tree generator uses the smaller leaf alphabet
   std::vector<int> deep;  // extra chain depths
+  int exactOnly = 0;      // when set: only the trees with exactly this many nodes (a second, deeper pass)
 };
 
 // sto: 0 = verif::build (non-negative integers stored unsigned), 1 = the single integer is stored through set(long long)
@@ -439,6 +439,19 @@ typedef std::function<void(const MValue&, int sto)> DocSink;
 
 // The document enumeration shared by C02 and C07.  Deterministic (identical in every shard).
 inline void forEachDoc(const DocOptions& o, const DocSink& f, std::vector<std::string>* bounds = nullptr) {
+  if (o.exactOnly) {
+    TreeGen G;
+    G.leavesTop = reducedLeaves(o.withRaw);
+    G.leavesDeep = deepLeaves(o.withRaw);
+    G.deepFrom = o.deepFrom;
+    G.keys = reducedKeys();
+    G.dupKeys = false;
+    G.exact(o.exactOnly, 0, [&](const MValue& t) { f(t, 0); });
+    if (bounds)
+      bounds->push_back("documents: all trees with exactly " + std::to_string(o.exactOnly) + " nodes over " + std::to_string(G.leavesTop.size()) + " leaves (" +
+                        std::to_string(G.leavesDeep.size()) + " at depth >= " + std::to_string(G.deepFrom) + ") and " + std::to_string(G.keys.size()) + " keys");
+    return;
+  }
   std::vector<MValue> full = fullLeaves(o.withRaw);
   // S1 single-leaf documents over the full alphabet, both integer storages
   for (auto& l : full) {
